@@ -119,6 +119,17 @@ def gen_case(rng, tier):
             case['jitter'] = rng.choice([1.0000001, 2.0, 5])
         else:
             case['jitter'] = rng.choice([-1.0000001, -2.0])
+    if rng.random() < 0.05:
+        # magnitudes: the whole float range is 'real start/stop/factor in range'
+        lo = rng.choice([5e-324, 2.0 ** -1022, 1e-300, 1e-200, 1e-30, 1.0, 1e200, 0.0])
+        hi = rng.choice([1e-300, 1e-200, 1e-30, 1.0, 1e30, 1e200, 1e300, 1.7976931348623157e308])
+        if hi < lo:
+            lo, hi = hi, lo
+        if hi <= 0:
+            hi = 1.0
+        case.update(start=lo, stop=hi, factor=rng.choice([2.0, 10.0, 1e10, 1e100, 1e308, 16.0]),
+                    count=rng.choice([None, None, None, 1, 5, 40]),
+                    jitter=rng.choice([False, False, 0.5, 1.0]) if hi < 1e300 else False)
     if case['count'] == 'repeat':
         case['api'] = 'backoff_iter'
     return case
